@@ -111,6 +111,18 @@ func GenST(rng *Rng, prop, variant string) *STScript {
 		val++
 		sc.Ops = append(sc.Ops, STOp{K: "del_task", Root: r, Task: t, Val: val, Coll: colls[0], PCh: pchs[0]})
 	}
+	if rng.Pct(25) {
+		// directed tail: a checkpoint record with all three maps is marked dropped, then late updates arrive for it
+		t, r, c, pc := Pick(rng, tasks), rng.Intn(len(sc.Roots)), Pick(rng, colls), Pick(rng, pchs)
+		val++
+		sc.Ops = append(sc.Ops, STOp{K: "upd_pos", Root: r, Task: t, Coll: c, PCh: pc, Val: val, Which: "all"})
+		val++
+		sc.Ops = append(sc.Ops, STOp{K: "mark_dropped", Root: r, Task: t, Coll: c, PCh: pc, Val: val})
+		for i := 0; i < rng.Range(1, 3); i++ {
+			val++
+			sc.Ops = append(sc.Ops, STOp{K: "upd_pos", Root: r, Task: t, Coll: c, PCh: pc, Val: val, Which: Pick(rng, []string{"pos", "op", "target", "all"})})
+		}
+	}
 	if rng.Pct(50) {
 		sc.Faults = rng.Range(1, 3)
 	}
